@@ -429,7 +429,18 @@ def recording_solvers():
                          shape=[float(kw["lens_angle"])] + [float(v) for v in np.reshape(kw["spherical_aberration"], -1)]))
         return saved[5](**kw)
 
-    M.miescatlib = _Proxy(saved[0], scatcoeffs=scatcoeffs)
+    def cross_sections(an, bn):
+        out = saved[0].cross_sections(an, bn)
+        PLOG.append(dict(what="qs", q=[float(v) for v in out]))
+        return out
+
+    def asymmetry_parameter(an, bn):
+        out = saved[0].asymmetry_parameter(an, bn)
+        PLOG.append(dict(what="g", g=float(out)))
+        return out
+
+    M.miescatlib = _Proxy(saved[0], scatcoeffs=scatcoeffs, cross_sections=cross_sections,
+                          asymmetry_parameter=asymmetry_parameter)
     M.scatcoeffs_multi = scatcoeffs_multi
     MS.scsmfo_min = _Proxy(saved[2], amncalc=amncalc)
     TM.ampld = ampld
@@ -853,6 +864,47 @@ def compare_params(meta, mv):
     return None
 
 
+def stage_cross(ctx):
+    """Mie.raw_cross_sections: efficiencies (oracle values of miescatlib) -> dimensional cross sections, vs cs_mie"""
+    import numpy as np
+    from holopy.scattering import calc_cross_sections
+    from holopy.scattering.theory import Mie
+    rng = ctx.subrng("cross")
+    exprs, metas = [], []
+    for k in range(ctx.n(12, 120)):
+        base = gen_cfg(rng, gen_sc(rng, rng.choice(["sphere", "layered"])), "grid")
+        u = unit_of(rng)
+        cfg = transform(base, s=u, subst=(rng.random() < 0.25))
+        del PLOG[:]
+        with recording_solvers():
+            res = np.asarray(calc_cross_sections(build_sc(cfg["sc"]), cfg["nm"], cfg["lam"], cfg["pol"], theory=Mie()).values)
+        qs = [p for p in PLOG if p["what"] == "qs"]
+        g = [p for p in PLOG if p["what"] == "g"]
+        if len(qs) != 1 or len(g) != 1:
+            ctx.disagree("corr:cross:records", "unexpected solver records in Mie.raw_cross_sections", dict(kind="corr-cross", cfg=cfg))
+            continue
+        exprs.append("(let '(a,b,c,d) := cs_mie QO %s (wavevec QO %s %s %s) %s %s %s in [a;b;c;d])" % (
+            PI_LIT, PI_LIT, qlit(float(cfg["nm"])), qlit(float(cfg["lam"])), qlit(qs[0]["q"][0]), qlit(qs[0]["q"][1]), qlit(g[0]["g"])))
+        metas.append(dict(cfg=cfg, unit=u, result=res, q=qs[0]["q"], g=g[0]["g"]))
+        ctx.count("cross:corr")
+    vals, errors = coq_eval_lists("C04c", exprs)
+    ctx.corr_cases += len(exprs)
+    for e in errors:
+        ctx.violation("corr-eval-error", "model evaluation failed: " + e[:300], dict(kind="coq-error", log=e), nofail=True)
+    for meta, mv in zip(metas, vals):
+        if mv is None:
+            continue
+        mvf = [f(x) for x in mv]
+        # cabs = cext - cscat cancels for weakly absorbing spheres: compare it on the scale of cext
+        ok = (len(mvf) == 4 and close_vec(meta["result"][[0, 2, 3]], [mvf[0], mvf[2], mvf[3]], TOL) and
+              abs(meta["result"][1] - mvf[1]) <= TOL * abs(mvf[2]))
+        if not ok:
+            ctx.disagree("corr:cross:Mie", "calc_cross_sections (Mie) %r differs from the model %r formed from the same efficiencies"
+                         % (meta["result"].tolist(), mvf), dict(kind="corr-cross", cfg=meta["cfg"], q=meta["q"], g=meta["g"]))
+        else:
+            ctx.nontriv(("cross", meta["cfg"]["sc"]["kind"], math.floor(math.log10(meta["unit"]))))
+
+
 # ---------------------------------------------------------------------------------------------
 # stage 3: direct exploration of the property on the implementation
 
@@ -963,6 +1015,43 @@ def stage_explore(ctx):
             bo = explore_one(ctx, "Multisphere", "cross", base, s, subst, bo)
 
 
+def two_colour(base, s, subst):
+    """calc_holo with two illumination wavelengths (dict-valued wavelength and index), lengths * s, optional index substitution"""
+    import numpy as np
+    from holopy.scattering import Sphere, calc_holo
+    from holopy.core.metadata import detector_grid
+    nm = base["nm"]
+    d = nm if subst else 1.0
+    det = detector_grid(shape=tuple(base["shape"]), spacing=base["spacing"] * s, extra_dims={"illumination": ["red", "green"]})
+    sc = Sphere(n={"red": base["n"][0] / d, "green": base["n"][1] / d}, r=base["r"] * s, center=tuple(x * s for x in base["c"]))
+    lam = {"red": base["lam"][0] / d * s, "green": base["lam"][1] / d * s}
+    return np.asarray(calc_holo(det, sc, 1.0 if subst else nm, lam, base["pol"]).values)
+
+
+def stage_two_colour(ctx):
+    rng = ctx.subrng("twocolour")
+    for j in range(ctx.n(2, 10)):
+        base = dict(nm=rng.choice([1.33, 1.4]), shape=[4, 5], spacing=rnd(rng, 0.05, 0.3), n=[rnd(rng, 1.5, 1.6), rnd(rng, 1.55, 1.7)],
+                    r=rnd(rng, 0.3, 0.7), c=[rnd(rng, 0, 1), rnd(rng, 0, 1), rnd(rng, 4, 9)], lam=[0.66, 0.52],
+                    pol=rng.choice([[1, 0], [0.6, 0.8]]))
+        ref = two_colour(base, 1.0, False)
+        for s, subst in transforms_for(rng, 2):
+            ctx.explored += 1
+            ctx.count("explore:Mie-two-colour:holo")
+            kind = ("scale+subst" if s != 1.0 else "subst") if subst else "scale"
+            data = dict(kind="explore-two-colour", base=base, s=s, subst=subst)
+            try:
+                out = two_colour(base, s, subst)
+            except Exception as e:
+                ctx.violation("explore:Mie-two-colour:%s:raises" % kind,
+                              "two-colour calc_holo raises %s: %s after %s (s=%r)" % (type(e).__name__, str(e)[:120], kind, s), data)
+                continue
+            if not close_vec(out, ref, TOL):
+                ctx.violation("explore:Mie-two-colour:%s" % kind, "two-colour calc_holo changes under %s (s=%r)" % (kind, s), data)
+            else:
+                ctx.nontriv(("explore", "two-colour", kind, math.floor(math.log10(s) + 0.5)))
+
+
 def run(ctx):
     ctx.rule = ("configurations = optics (5 wavelengths x 5 medium indices x 5 polarizations) x scatterer (sphere, 2-3 layer "
                 "sphere, 2-4 sphere cluster incl. layered members, spheroid, cylinder; real and absorbing indices) x detector "
@@ -986,7 +1075,7 @@ def run(ctx):
         "theory output is a function of the dimensionless tuple only (no hidden absolute-unit constant in the Python or "
         "Fortran solvers): calc_holo / calc_field / calc_intensity / calc_scat_matrix equal under rescaling over 8 decades "
         "and the index substitution, calc_cross_sections x s^2, for Mie, layered Mie, Mie superposition, Multisphere, "
-        "T-matrix, MieLens, AberratedMieLens, Lens(Mie), Lens(Tmatrix) (sampled)"]
+        "T-matrix, MieLens, AberratedMieLens, Lens(Mie), Lens(Tmatrix), and two-colour Mie holograms (sampled)"]
     ctx.trusted += [
         "oracle: np.pi enters the model as the argument [pi] (theorems hold for every value)",
         "oracle: v ** (1/3.) in Tmatrix._parse_args = argument [cbrt], hypothesis: positively homogeneous (proved for the real cube root)",
@@ -1002,7 +1091,9 @@ def run(ctx):
     warnings.simplefilter("ignore")
     guarded(ctx, "mock", stage_mock, ctx)
     guarded(ctx, "params", stage_params, ctx)
+    guarded(ctx, "cross", stage_cross, ctx)
     guarded(ctx, "explore", stage_explore, ctx)
+    guarded(ctx, "two_colour", stage_two_colour, ctx)
     ctx.notes.append("largest relative difference observed in the exploration (tolerance 1e-9; 1e-6 for Multisphere / T-matrix): "
                      + ", ".join("%s %.1e" % kv for kv in sorted(MAXERR.items())))
 
@@ -1012,7 +1103,13 @@ def replay(ctx, data):
     boot.boot()
     warnings.simplefilter("ignore")
     d = data["data"]
-    if d.get("kind") == "explore":
+    if d.get("kind") == "explore-two-colour":
+        ok = close_vec(two_colour(d["base"], d["s"], d["subst"]), two_colour(d["base"], 1.0, False), TOL)
+        ctx.explored += 1
+        print("replay: two-colour s=%r subst=%r -> %s" % (d["s"], d["subst"], "property holds" if ok else "property fails"))
+        if not ok:
+            ctx.violation(data["key"], data["what"], d)
+    elif d.get("kind") == "explore":
         n0 = len(ctx.violations)
         explore_one(ctx, d["theory"], d["api"], _fix_cfg(d["base"]), d["s"], d["subst"])
         print("replay: %s %s s=%r subst=%r -> %s" % (d["theory"], d["api"], d["s"], d["subst"],
